@@ -122,6 +122,10 @@ func Alphabet() []Gen {
 		xfer("A->B all", A, nk.UserAddrs[B], func(e *Env) *big.Int { return e.Bal(A) }),
 		xfer("A->B all+1", A, nk.UserAddrs[B], func(e *Env) *big.Int { return new(big.Int).Add(e.Bal(A), big.NewInt(1)) }),
 		xfer("B->A half", B, nk.UserAddrs[A], func(e *Env) *big.Int { return new(big.Int).Rsh(e.Bal(B), 1) }),
+		// recipient given as a name: on the warm pre-state the name resolves to B (sender = receiver
+		// under two different spellings) resp. is a third party for A
+		xfer("B->name b 3", B, []byte(NameB), c(3)),
+		xfer("A->name b 3", A, []byte(NameB), c(3)),
 		gov("A stake min", "", A, types.AergoSystem, stakeMin, func(*Env) []byte { return nk.GovPayload("v1stake") }),
 		gov("D stake min-1", "", D, types.AergoSystem, new(big.Int).Sub(stakeMin, big.NewInt(1)), func(*Env) []byte { return nk.GovPayload("v1stake") }),
 		gov("A unstake min", "", A, types.AergoSystem, stakeMin, func(*Env) []byte { return nk.GovPayload("v1unstake") }),
